@@ -12,6 +12,9 @@ def run_encoder(ctx, s, strict=True, attribute=False):
     except EncoderError as ex:
         return ("EncoderError", ex)
     except Exception as ex:  # noqa
+        if symstr.proxy_fault(ex) and not isinstance(s, str):
+            symstr.PROXY_FALLBACKS[0] += 1
+            return run_encoder(ctx, symstr.pin(s), strict=strict, attribute=attribute)
         return ("exc", ex)
 
 
